@@ -148,7 +148,7 @@ type Violation struct {
 }
 
 // RunHarness explores every path of the named harness function.
-func (l *Loaded) RunHarness(name string, cfg Config, workers int, deadline time.Time) *HarnessResult {
+func (l *Loaded) RunHarness(name string, cfg Config, params map[string]int, workers int, deadline time.Time) *HarnessResult {
 	fn := l.Pkg.Func(name)
 	hr := &HarnessResult{Name: name, Ends: map[string]int{}, Checks: map[string]map[string]int{}, Reached: map[string]int{}, ReachModels: map[string][]NondetVal{}, Funcs: map[string]int{}}
 	if fn == nil {
@@ -157,7 +157,7 @@ func (l *Loaded) RunHarness(name string, cfg Config, workers int, deadline time.
 	}
 	sh := *l.Sh // copy with per-harness config; sync.Map fields are copied by value but unused concurrently before this point
 	shp := &Shared{Prog: sh.Prog, Cfg: cfg, Intrinsics: sh.Intrinsics, KeepScript: sh.KeepScript, RunInit: sh.RunInit,
-		tmplGlobals: sh.tmplGlobals, KnownActive: sh.KnownActive, InitPkgs: sh.InitPkgs, Module: sh.Module, Params: sh.Params, Deadline: deadline}
+		tmplGlobals: sh.tmplGlobals, KnownActive: sh.KnownActive, InitPkgs: sh.InitPkgs, Module: sh.Module, Params: params, Deadline: deadline}
 	t0 := time.Now()
 	var mu sync.Mutex
 	cond := sync.NewCond(&mu)
